@@ -287,6 +287,13 @@ module Z =
        | Zneg y' -> compOpp (Pos.compare x' y')
        | _ -> Lt)
 
+  (** val leb : z -> z -> bool **)
+
+  let leb x y =
+    match compare x y with
+    | Gt -> false
+    | _ -> true
+
   (** val eqb : z -> z -> bool **)
 
   let eqb x y =
@@ -344,6 +351,12 @@ let rec fold_left f l a0 =
   | [] -> a0
   | b :: t -> fold_left f t (f a0 b)
 
+(** val fold_right : ('a2 -> 'a1 -> 'a1) -> 'a1 -> 'a2 list -> 'a1 **)
+
+let rec fold_right f a0 = function
+| [] -> a0
+| b :: t -> f b (fold_right f a0 t)
+
 (** val existsb : ('a1 -> bool) -> 'a1 list -> bool **)
 
 let rec existsb f = function
@@ -381,6 +394,31 @@ let rec upd i x = function
 | a0 :: r -> (match i with
               | O -> x :: r
               | S i' -> a0 :: (upd i' x r))
+
+(** val c11_container_dunder_copy_is_copy : bool **)
+
+let c11_container_dunder_copy_is_copy =
+  true
+
+(** val c11_container_dunder_deepcopy_returns_self_copy : bool **)
+
+let c11_container_dunder_deepcopy_returns_self_copy =
+  true
+
+(** val c11_linker_dunder_copy_is_copy : bool **)
+
+let c11_linker_dunder_copy_is_copy =
+  true
+
+(** val c11_linker_dunder_deepcopy_returns_self_copy : bool **)
+
+let c11_linker_dunder_deepcopy_returns_self_copy =
+  true
+
+(** val c11_no_other_copy_entry_points : bool **)
+
+let c11_no_other_copy_entry_points =
+  true
 
 type loc = nat
 
@@ -436,6 +474,42 @@ let rec mem_nat x = function
 | [] -> false
 | y :: r -> (||) (Nat.eqb x y) (mem_nat x r)
 
+(** val insert_cell : (z * val0) -> (z * val0) list -> (z * val0) list **)
+
+let rec insert_cell c l = match l with
+| [] -> c :: []
+| d :: r -> if Z.leb (fst c) (fst d) then c :: l else d :: (insert_cell c r)
+
+(** val sort_cells : (z * val0) list -> (z * val0) list **)
+
+let sort_cells l =
+  fold_right insert_cell [] l
+
+(** val norm_cells : kind -> (z * val0) list -> (z * val0) list **)
+
+let norm_cells k cs =
+  match k with
+  | KCont _ -> sort_cells cs
+  | _ -> cs
+
+(** val kEY_ATTRIBUTES : z **)
+
+let kEY_ATTRIBUTES =
+  Zpos (XO (XI (XI XH)))
+
+(** val scalar_of : val0 -> z **)
+
+let scalar_of = function
+| VS z0 -> z0
+| VR _ -> Z0
+
+(** val sorted_values : (z * val0) list -> (z * val0) list **)
+
+let sorted_values cs =
+  enum
+    (map (fun c -> VS (fst c))
+      (sort_cells (map (fun c -> ((scalar_of (snd c)), (snd c))) cs)))
+
 (** val dfs :
     nat -> heap -> (loc * z list) list -> (loc * z list) list -> (loc * z
     list) list **)
@@ -456,7 +530,8 @@ let rec dfs fuel h todo seen =
                  flat_map (fun c ->
                    match snd c with
                    | VS _ -> []
-                   | VR l' -> (l', (app p ((fst c) :: []))) :: []) o.ocells
+                   | VR l' -> (l', (app p ((fst c) :: []))) :: [])
+                   (norm_cells o.okind o.ocells)
                in
                dfs f h (app kids rest) (app seen ((l, p) :: []))
              | None -> dfs f h rest (app seen ((l, p) :: []))))
@@ -496,9 +571,9 @@ type ctree =
 | CO of (z * z) * (z * ctree) list
 | CCut
 
-(** val cview : nat -> heap -> val0 -> ctree **)
+(** val cview_ : nat -> heap -> bool -> val0 -> ctree **)
 
-let rec cview n h = function
+let rec cview_ n h as_set = function
 | VS z0 -> CS z0
 | VR l ->
   (match n with
@@ -506,9 +581,24 @@ let rec cview n h = function
    | S n' ->
      (match nth_error h l with
       | Some o ->
+        let cs =
+          if as_set
+          then sorted_values o.ocells
+          else norm_cells o.okind o.ocells
+        in
+        let attrs = match o.okind with
+                    | KCont _ -> true
+                    | _ -> false in
         CO ((kind_code o.okind),
-          (map (fun c -> ((fst c), (cview n' h (snd c)))) o.ocells))
+        (map (fun c -> ((fst c),
+          (cview_ n' h ((&&) attrs (Z.eqb (fst c) kEY_ATTRIBUTES)) (snd c))))
+          cs))
       | None -> CCut))
+
+(** val cview : nat -> heap -> val0 -> ctree **)
+
+let cview n h v0 =
+  cview_ n h false v0
 
 (** val ctree_eqb : ctree -> ctree -> bool **)
 
@@ -939,6 +1029,11 @@ let f_TRACER =
 
 let tAG_TRACE =
   Zpos XH
+
+(** val tAG_SET : z **)
+
+let tAG_SET =
+  Zpos (XO XH)
 
 (** val a : z -> z **)
 
@@ -1519,6 +1614,8 @@ type op =
 | OSubStatus of z * z * z * z
 | OPathAppend of path * z
 | OAliasAttr of z * path
+| OSetAttrNested of z * z list list
+| OSetAttrSet of z * z list
 | OReplaceSeries of z * z list
 
 (** val is_empty_trace : heap -> loc -> z -> bool **)
@@ -1646,6 +1743,26 @@ let compile_op k h r = function
        then (ASet ([], (a x), (SAlias p))) :: []
        else if Z.eqb (own_scalar h r (a n_strict)) k.k_false
             then add_attribute_acts x (SAlias p)
+            else []
+| OSetAttrNested (name, vss) ->
+  let x = resolve_alias h r name in
+  let inner = map (fun vs -> AAppend (((a x) :: []), (new_list vs))) vss in
+  if zmem x (scalars_path h r ((a n_index) :: []))
+  then []
+  else if zmem x (scalars_path h r ((a n_attributes) :: []))
+       then (ASet ([], (a x), (new_list []))) :: inner
+       else if Z.eqb (own_scalar h r (a n_strict)) k.k_false
+            then app (add_attribute_acts x (new_list [])) inner
+            else []
+| OSetAttrSet (name, vs) ->
+  let x = resolve_alias h r name in
+  let s = SFresh ((KObj tAG_SET), (pos_cells vs)) in
+  if zmem x (scalars_path h r ((a n_index) :: []))
+  then []
+  else if zmem x (scalars_path h r ((a n_attributes) :: []))
+       then (ASet ([], (a x), s)) :: []
+       else if Z.eqb (own_scalar h r (a n_strict)) k.k_false
+            then add_attribute_acts x s
             else []
 | OReplaceSeries (name, vs) ->
   let x = resolve_alias h r name in
@@ -1802,7 +1919,71 @@ let linker_solve_ops t subs passes st it =
     (app ((OSolveStatus (t, st, it)) :: [])
       (map (fun kw -> OSubStatus ((fst kw), t, st, it)) subs))
 
+type route =
+| RCopy
+| RCopyCopy
+| RDeepCopy
+
+(** val shallow_copy : heap -> loc -> (heap * loc) option **)
+
+let shallow_copy h r =
+  match nth_error h r with
+  | Some o -> Some ((app h (o :: [])), (length h))
+  | None -> None
+
+(** val generic_deepcopy : heap -> loc -> (heap * loc) option **)
+
+let generic_deepcopy h r =
+  match nth_error h r with
+  | Some o ->
+    (match dc_entries1 h o.ocells with
+     | Some p ->
+       let (h', cs') = p in
+       Some ((app h' ({ okind = o.okind; ocells = cs' } :: [])), (length h'))
+     | None -> None)
+  | None -> None
+
+(** val is_linker : heap -> loc -> bool **)
+
+let is_linker h r =
+  match class_of h r with
+  | Some c -> Z.eqb (class_scalar h c f_MODEL) (Zpos (XO XH))
+  | None -> false
+
+(** val the_copy : consts -> heap -> loc -> (heap * loc) option **)
+
+let the_copy k h r =
+  if is_linker h r then linker_copy_M k h r else copy_M k h r
+
+(** val copy_by_route :
+    bool -> bool -> bool -> route -> consts -> heap -> loc -> (heap * loc)
+    option **)
+
+let copy_by_route dunder_copy_is_copy dunder_deepcopy_returns_copy no_other_entry_points rt k h r =
+  match rt with
+  | RCopy -> the_copy k h r
+  | RCopyCopy ->
+    if (&&) dunder_copy_is_copy no_other_entry_points
+    then the_copy k h r
+    else shallow_copy h r
+  | RDeepCopy ->
+    if (&&) dunder_deepcopy_returns_copy no_other_entry_points
+    then the_copy k h r
+    else generic_deepcopy h r
+
+(** val copy_route : route -> consts -> heap -> loc -> (heap * loc) option **)
+
+let copy_route rt k h r =
+  if is_linker h r
+  then copy_by_route c11_linker_dunder_copy_is_copy
+         c11_linker_dunder_deepcopy_returns_self_copy
+         c11_no_other_copy_entry_points rt k h r
+  else copy_by_route c11_container_dunder_copy_is_copy
+         c11_container_dunder_deepcopy_returns_self_copy
+         c11_no_other_copy_entry_points rt k h r
+
 type hevent =
+| HCopyRoute of route * nat
 | HOps of nat * op list
 | HEv of event
 | HCopySeries of nat * nat * z * z
@@ -1812,6 +1993,14 @@ type hevent =
 (** val run_hevent : consts -> state -> hevent -> state **)
 
 let run_hevent k s = function
+| HCopyRoute (rt, i) ->
+  (match nth_error s.sroots i with
+   | Some r ->
+     (match copy_route rt k s.sh r with
+      | Some p ->
+        let (h', r') = p in { sh = h'; sroots = (app s.sroots (r' :: [])) }
+      | None -> s)
+   | None -> s)
 | HOps (i, os) -> fold_left (fun s0 o -> run_fevent k s0 (FOp (i, o))) os s
 | HEv e0 -> run_event k s e0
 | HCopySeries (i, j, srcname, dstname) ->
